@@ -316,6 +316,32 @@ func init() {
 			}
 			c.Count("attribute-number", on.text)
 		}
+		// spellings of the type: octets[n] takes a decimal n between the brackets and nothing else; no other type takes a size
+		for _, ty := range []struct {
+			text string
+			ok   bool
+			size int
+		}{{"octets[12]", true, 12}, {"OCTETS[12]", true, 12}, {"Octets[1]", true, 1}, {"octets", true, -1}, {"octets[8", false, 0}, {"OCTETS[12", false, 0},
+			{"octets[8]x", false, 0}, {"octets[8]]", false, 0}, {"octets[]", false, 0}, {"octets[x]", false, 0}, {"octets[", false, 0}, {"octets]", false, 0},
+			{"string[8]", false, 0}, {"integer[4]", false, 0}, {"octets[8][9]", false, 0}, {"[8]", false, 0}} {
+			text := "ATTRIBUTE A 1 " + ty.text + "\n"
+			d, err := (&dictionary.Parser{Opener: &memOpener{files: map[string]memEntry{"d": {"d", text}}, limit: 4}}).ParseFile("d")
+			got := "rejected"
+			if err == nil {
+				got = fmt.Sprintf("%v size %v", d.Attributes[0].Type, d.Attributes[0].Size)
+			}
+			want := "rejected"
+			if ty.ok {
+				want = fmt.Sprintf("octets size %v", dictionary.IntFlag{Int: ty.size, Valid: true})
+				if ty.size < 0 {
+					want = fmt.Sprintf("octets size %v", dictionary.IntFlag{})
+				}
+			}
+			if got != want {
+				c.Fail("spec", "Parser.ParseFile", "type-spelling", text, got, want, "the types are the listed names and octets[n]; anything else is an unknown type and is rejected")
+			}
+			c.Count("type-spelling", ty.text)
+		}
 		// what is recorded for an accepted declaration, decided by the statement itself
 		{
 			text := "VENDOR V4 9 format=4,0\nVENDOR V2 10 format=2,1\nVENDOR V1 11 format=1,2\nVENDOR V0 12\n" +
@@ -440,7 +466,7 @@ func init() {
 			c.Count("flags", fl.text)
 		}
 		c.Flush()
-		c.RequireTags("dict-ok", "dict-ok-vendorblock", "layout", "mutation-rejected", "mutation-accepted", "identical-attributes")
+		c.RequireTags("dict-ok", "dict-ok-vendorblock", "type-spelling", "layout", "mutation-rejected", "mutation-accepted", "identical-attributes")
 	}
 }
 
